@@ -21,7 +21,7 @@ def build_static(case):
     rng = random.Random(case['wseed'])
     w = World(seed=case['wseed'])
     if case.get('colls'):
-        w.use_collisions(case['colls'], rng)
+        w.use_collisions(case['colls'], rng, kind='any')
     grow_chain(w, case['n0'] + 1, rng)
     big = case.get('big_spend')
     if big:
